@@ -32,8 +32,8 @@ EXTENDS Prims, SequencesExt
 Trace == ndJsonDeserialize(IOEnv.VERIF_TRACE)
 Prop == IOEnv.VERIF_PROP
 
-VARIABLES l, hist, ub, held, q, lead, F, G, src, last, part, ref, big, bad, nchk
-vars == <<l, hist, ub, held, q, lead, F, G, src, last, part, ref, big, bad, nchk>>
+VARIABLES l, hist, ub, held, q, lead, F, G, src, last, part, ref, big, reg, bad, nchk
+vars == <<l, hist, ub, held, q, lead, F, G, src, last, part, ref, big, reg, bad, nchk>>
 
 Get(f, k, d) == IF k \in DOMAIN f THEN f[k] ELSE d
 Put(f, k, x) == [y \in DOMAIN f \cup {k} |-> IF y = k THEN x ELSE f[y]]
@@ -50,6 +50,7 @@ Init ==
   /\ F = Empty /\ G = Empty /\ src = Empty /\ last = Empty /\ part = Empty
   /\ ref = [bytes |-> <<>>, canon |-> FALSE]
   /\ big = Empty
+  /\ reg = AlgNames       \* the checksum services registered (library start-up state)
   /\ bad = <<>> /\ nchk = 0
 
 ---------------------------------------------------------------------------
@@ -79,7 +80,7 @@ EncodeClauses(e) ==
   (* C02: the appended bytes are the pinned rendering of the value.          *)
   (* C03: ... and where they are not, is it the byte order of an integer?    *)
   (IF P("C02") \/ P("C03")
-   THEN LET E == EncMsg(T, v) IN
+   THEN LET E == ExpectedEnc(T, v, reg) IN
         IF E.ok /\ ~(e.res = "ok" /\ app = E.bytes)
         THEN LET orderOnly == e.res = "ok" /\ OnlyByteOrderDiffers(app, E.bytes, E.mask)
                  kinds == IF orderOnly THEN ReversedKinds(app, E.bytes, E.mask) ELSE {}
@@ -99,7 +100,7 @@ EncodeClauses(e) ==
    ELSE {})
   \cup
   (* C05: checksum = algorithm over exactly this frame's bytes *)
-  (IF P("C05") /\ T \in CsumTypes /\ e.res = "ok" /\ HeaderConforms(T, v, app)
+  (IF P("C05") /\ T \in CsumTypes /\ ChecksumAlg(T) \in reg /\ e.res = "ok" /\ HeaderConforms(T, v, app)
    THEN LET good == CorrectCsum(T, app)
             wireOK == CsumFieldOf(T, app) = good
             objOK == e.vpost[CsumName(T)] = good
@@ -128,7 +129,7 @@ EncodeClauses(e) ==
   \cup
   (* C08: re-encoding a decoded message reproduces the bytes consumed *)
   (IF P("C08") /\ e.o \in DOMAIN src /\ e.res # "panic"
-   THEN IF e.res = "ok" /\ app = FixComputed(T, src[e.o]) THEN {}
+   THEN IF e.res = "ok" /\ app = (IF T \in CsumTypes /\ ChecksumAlg(T) \notin reg THEN FixLenOnly(T, src[e.o]) ELSE FixComputed(T, src[e.o])) THEN {}
         ELSE {<<"C08.reencode", "none">>}
    ELSE {})
   \cup
@@ -309,7 +310,7 @@ Step(e) ==
                [] OTHER -> held
   /\ q' = CASE encOK /\ Len(pre) = Lead(b) + QBytes(Q(b)) ->
                  Put(q, b, Append(Q(b), [t |-> e.t, v |-> v, vp |-> e.vpost, bytes |-> appended,
-                                         conf |-> (IF P("C02") THEN LET E == EncMsg(e.t, v) IN E.ok /\ E.bytes = appended ELSE FALSE)]))
+                                         conf |-> (IF P("C02") THEN LET E == ExpectedEnc(e.t, v, reg) IN E.ok /\ E.bytes = appended ELSE FALSE)]))
             [] e.op = "encode" -> q      \* appended after foreign bytes (or failed): not part of the channel view
             [] decOK /\ alignedHead /\ used = Len(Q(b)[1].bytes) -> Put(q, b, Tail(Q(b)))
             [] e.op \in {"decode", "next", "reset", "load", "cut", "scribble", "poke"} -> Put(q, b, <<>>)
@@ -330,6 +331,9 @@ Step(e) ==
                [] e.op \in {"decode", "new", "newzero", "copy", "mutate", "encode"} /\ o \in DOMAIN last -> Del(last, o)
                [] OTHER -> last
   /\ big' = IF e.op = "fill" THEN Put(big, b, e.args.runs) ELSE big
+  /\ reg' = CASE e.op = "regremove" -> reg \ {e.alg}
+              [] e.op = "regrestore" -> reg \cup {e.alg}
+              [] OTHER -> reg
   /\ ref' = IF encOK /\ e.tag = "reference" THEN [bytes |-> appended, canon |-> Canonical(e.t, v)] ELSE ref
   /\ part' = CASE e.op = "cut" -> Put(part, b, ref.canon /\ Len(e.post) < Len(ref.bytes) /\ IsPrefixOf(e.post, ref.bytes))
                [] e.op \in {"encode", "write", "load", "reset", "scribble", "next", "decode"} /\ b \in DOMAIN part -> Put(part, b, FALSE)
@@ -340,6 +344,7 @@ ResetHistory ==
   /\ F' = Empty /\ G' = Empty /\ src' = Empty /\ last' = Empty /\ part' = Empty
   /\ ref' = [bytes |-> <<>>, canon |-> FALSE]
   /\ big' = Empty
+  /\ reg' = AlgNames
 
 Next ==
   /\ l <= Len(Trace)
